@@ -257,14 +257,23 @@ Definition addr_of (ss : list stmt) (k : N) : res N :=
   | Some s => match cp_addr (s_pkg s) with VPyNone => Internal E_ATTR | a => Ok (v_int a) end
   end.
 
+(* a term of an address expression: a label is its statement's address, a number is signed (F31) *)
+Definition term_value (ss : list stmt) (v : value) : res Z :=
+  match v with
+  | VAddr k => do a <- addr_of ss k; Ok (Z.of_N a)
+  | _ => Ok (if v_negative v then (- Z.of_N (v_int v))%Z else Z.of_N (v_int v))
+  end.
+
+Definition calc_offset_z (ss : list stmt) (l : value) (op : N) (r : value) : res Z :=
+  do a <- term_value ss l;
+  do b <- term_value ss r;
+  if op =? 43 then Ok (a + b)%Z
+  else if op =? 45 then Ok (a - b)%Z
+  else if op =? 42 then Ok (a * b)%Z
+  else if (b =? 0)%Z then Diag 2 else Ok (Z.quot a b).
+
 Definition calc_offset (ss : list stmt) (l : value) (op : N) (r : value) : res value :=
-  let ai := if v_is_address l then v_int l else v_int r in
-  let av := if v_is_numeric l then v_int l else v_int r in
-  do address <- addr_of ss ai;
-  do z <- (if op =? 43 then Ok (Z.of_N address + Z.of_N av)%Z
-           else if op =? 45 then Ok (Z.of_N address - Z.of_N av)%Z
-           else if op =? 42 then Ok (Z.of_N address * Z.of_N av)%Z
-           else if av =? 0 then Diag 2 else Ok (Z.of_N (address / av)));
+  do z <- calc_offset_z ss l op r;
   do n <- as_translation_error (num_of_Z z (Some 4) MExtended);
   Ok (VNum n).
 
@@ -320,11 +329,13 @@ Definition fix_stmt (ss : list stmt) (this : N) (s : stmt) : res stmt :=
                 end);
       if cp_needs p then
         do target <- (match operand_left (s_operand s) with
-                      | Some (LVal (VExpr l op r _ true)) => do v <- calc_offset ss l op r; Ok (v_int v)
-                      | _ => addr_of ss (v_int (cp_add (s_pkg s1)))
+                      | Some (LVal (VExpr l op r _ true)) =>
+                          do v <- calc_offset ss l op r;
+                          Ok (if v_negative v then (- Z.of_N (v_int v))%Z else Z.of_N (v_int v))
+                      | _ => do a <- addr_of ss (v_int (cp_add (s_pkg s1))); Ok (Z.of_N a)
                       end);
         do start <- addr_of ss this;
-        do n <- as_translation_error (num_of_Z (Z.of_N target - Z.of_N start - Z.of_N (cp_size p))%Z (Some (s_hint s)) MNone);
+        do n <- as_translation_error (num_of_Z (target - Z.of_N start - Z.of_N (cp_size p))%Z (Some (s_hint s)) MNone);
         Ok (with_add s1 (VNum n))
       else Ok s1
     end.
